@@ -4,18 +4,21 @@ plus setTaggedValue).  No zope import here: used by the driver and by the replay
 
 case = {"n": N, "bases": [[..] per interface 1..N], "attrs": [[[name, kind], ..] ..],
         "tags": [[[tag, value], ..] ..], "style": ["body"|"call", ..], "invs": [[id, ..] ..],
+        "invkind": {"<id>": "func"|"unhash"|"eqhash"} (optional, default func),
         "failing": [id, ..], "ops": [...], "names": [...], "tagsU": [...]}
 Optional "pyname": [k per interface]: interface i (variable I<i>, identity = i) gets __name__ "I<k>";
 k != i makes it a TWIN of interface k: a different object that compares equal to it (same name and
 module).  A tagged value may be None (JSON null): a defined value.
 Interface 0 is zope.interface.Interface.  Name k is "a<k>", tag k is "t<k>" (tag 0 = "invariants").
 A description defined by interface i is recognisable: Attribute with doc "d<i>", or a method with
-i positional parameters.
+i positional parameters.  Kinds "fattr" / "fmeth" are FALSY descriptions (subclasses of Attribute / Method
+with __len__ 0 / __bool__ False, doc "d<i>").
 """
 
 PRELUDE = '''\
 from zope.interface import Interface, Attribute, Invalid, invariant, taggedValue
-from zope.interface.interface import InterfaceClass
+from zope.interface.interface import InterfaceClass, Method
+from dataclasses import dataclass, field
 FAILING = set(%(failing)r)
 RAN = []
 def make_inv(k):
@@ -25,8 +28,37 @@ def make_inv(k):
             raise Invalid(k)
     inv.inv_id = k
     return inv
+@dataclass
+class UnhashInv:
+    """an invariant object with __eq__ and therefore no __hash__"""
+    inv_id: int
+    def __call__(self, ob):
+        RAN.append(self.inv_id)
+        if self.inv_id in FAILING:
+            raise Invalid(self.inv_id)
+@dataclass(frozen=True)
+class EqInv:
+    """hashable invariant objects that are all EQUAL (same group) but distinct"""
+    group: int
+    inv_id: int = field(default=0, compare=False)
+    def __call__(self, ob):
+        RAN.append(self.inv_id)
+        if self.inv_id in FAILING:
+            raise Invalid(self.inv_id)
+class FalsyAttribute(Attribute):
+    """a description that is false in a boolean context (like a schema field over an empty collection)"""
+    c15_falsy = True
+    def __len__(self):
+        return 0
+class FalsyMethod(Method):
+    c15_falsy = True
+    def __bool__(self):
+        return False
 I0 = Interface
 '''
+
+
+FALSY = {"fattr": "FalsyAttribute", "fmeth": "FalsyMethod"}
 
 
 def tagname(t):
@@ -44,8 +76,11 @@ def iface_source(case, i, module='c15'):
     if pyname != i:
         style = "call"          # a class statement would name it I<i>
     lines = []
+    kinds = case.get("invkind") or {}
     for k in invs:
-        lines.append("inv%d = make_inv(%d)" % (k, k))
+        kd = kinds.get(str(k), "func")
+        ctor = {"func": "make_inv(%d)", "unhash": "UnhashInv(%d)", "eqhash": "EqInv(0, %d)"}[kd]
+        lines.append("inv%d = %s" % (k, ctor % k))
     if style == "body" and bases:
         lines.append("class I%d(%s):" % (i, ", ".join("I%d" % b for b in bases)))
         body = ["__module__ = %r" % module]
@@ -56,6 +91,8 @@ def iface_source(case, i, module='c15'):
         for nm, kind in attrs:
             if kind == "attr":
                 body.append("a%d = Attribute('a%d', 'd%d')" % (nm, nm, i))
+            elif kind in ("fattr", "fmeth"):
+                body.append("a%d = %s('a%d', 'd%d')" % (nm, FALSY[kind], nm, i))
             else:
                 body.append("def a%d(%s): pass" % (nm, ", ".join("p%d" % j for j in range(i))))
         lines += ["    " + b for b in body]
@@ -64,6 +101,8 @@ def iface_source(case, i, module='c15'):
         for nm, kind in attrs:
             if kind == "attr":
                 items.append("'a%d': Attribute('a%d', 'd%d')" % (nm, nm, i))
+            elif kind in ("fattr", "fmeth"):
+                items.append("'a%d': %s('a%d', 'd%d')" % (nm, FALSY[kind], nm, i))
             else:
                 lines.append("def _m%d_%d(%s): pass" % (i, nm, ", ".join("p%d" % j for j in range(i))))
                 items.append("'a%d': _m%d_%d" % (nm, i, nm))
